@@ -7,9 +7,15 @@ Local Open Scope Z_scope.
 Lemma st_wf_ext s s' : c_w s' = c_w s -> c_h s' = c_h s -> c_fb s' = c_fb s -> st_wf s -> st_wf s'.
 Proof. unfold st_wf. intros -> -> ->. auto. Qed.
 
+Lemma map_mod_id l : Forall byte_ok l -> map (fun b => b mod 256) l = l.
+Proof.
+  intros H. rewrite <- (map_id l) at 2. apply map_ext_in. intros b Hb. rewrite Forall_forall in H.
+  specialize (H b Hb). unfold byte_ok in H. apply Z.mod_small. lia.
+Qed.
+
 Lemma rd_stream_ok sid s fresh data ts :
   fresh = negb (zact_get s sid) ->
-  rd_stream sid s (TZ sid fresh true data :: ts) = Ok (true, data) (zact_set s sid true) ts.
+  rd_stream sid s (TZ sid fresh true data :: ts) = Ok (true, map (fun b => b mod 256) data) (zact_set s sid true) ts.
 Proof.
   intros ->. unfold rd_stream, rd_zblock, bind, get_st, upd_st, ret. rewrite Z.eqb_refl. cbn [negb].
   destruct (zact_get s sid); reflexivity.
@@ -28,6 +34,7 @@ Proof.
   erewrite bind_ok; [|reflexivity]. fold cap.
   erewrite bind_ok; [|reflexivity].
   erewrite bind_ok; [|apply rd_stream_ok; exact Hfresh].
+  rewrite map_mod_id by apply px_bytes_ok.
   cbn [negb].
   destruct Ht as [T1 T2].
   change (f_bpp (c_fmt s) / 8) with (bypp_of s).
@@ -55,6 +62,7 @@ Proof.
   unfold dec_ultra, ref_ultra. cbn [app].
   erewrite bind_ok; [|reflexivity].
   erewrite bind_ok; [|reflexivity].
+  rewrite map_mod_id by apply px_bytes_ok.
   destruct (Z.eqb_spec (w * h * bypp_of s) 0); [nia|].
   fold cap.
   erewrite bind_ok; [|reflexivity].
